@@ -220,8 +220,88 @@ Section Sorted.
       destruct bprops as [|[v sc] [|]].
       + destruct (xsimple _); [|discriminate]. exact (Hrest _ _ _ Hs H).
       + destruct (conv_xvar cvf nm v sc s0) as [[[vd deny] sa]|] eqn:Hv; [|discriminate].
-        refine (Hrest _ _ _ _ H). exact (conv_xvar_sorted _ _ _ _ _ _ _ (Forall_inv HQ v sc eq_refl) Hv Hs).
+        refine (Hrest _ _ _ _ H). exact (conv_xvar_sorted _ _ _ _ _ _ _ (Forall_inv HQ v sc (or_introl eq_refl)) Hv Hs).
       + destruct (xsimple _); [|discriminate]. exact (Hrest _ _ _ Hs H).
+  Qed.
+
+
+  Lemma conv_avariant_sorted nm tg ct b s0 v vd d s1 :
+    PropP SortP b -> conv_avariant cvf nm tg ct b s0 = Some (v, vd, d, s1) -> SI s0 -> SI s1.
+  Proof.
+    intros HQ. destruct b as [bb|bty bfmt benum bcst bnv bsv bik bitems bai bmni bmxi buq bprops breq bap bmnp bmxp ballo banyo boneo bno bref bdflt btitle];
+      [discriminate|]. cbn [conv_avariant].
+    assert (Hpay : forall (vn : option ustring) sc, SortP sc ->
+              match vn with
+              | Some v0 => match conv_xvar cvf nm (match nm with NRequired _ => ct | _ => v0 end) sc s0 with
+                           | Some (vd0, deny, sa) => Some (v0, vd0, deny, sa)
+                           | None => None
+                           end
+              | None => None
+              end = Some (v, vd, d, s1) -> SI s0 -> SI s1).
+    { intros [v0|] sc HQs H; [|discriminate].
+      destruct (conv_xvar cvf nm _ sc s0) as [[[vd0 deny] sa]|] eqn:Hv; [|discriminate]. injection H as _ _ _ <-.
+      exact (conv_xvar_sorted _ _ _ _ _ _ _ HQs Hv). }
+    destruct bprops as [|[k1 s1'] [|[k2 s2'] [|]]]; try discriminate.
+    - destruct (cstr s1'); [|discriminate]. intro H. injection H as _ _ _ <-. exact (fun H => H).
+    - destruct (ustr_eqb k1 tg).
+      + apply Hpay. apply (HQ k2 s2'). right. left. reflexivity.
+      + apply Hpay. apply (HQ k1 s1'). left. reflexivity.
+  Qed.
+
+  Lemma conv_abranches_sorted nm tg ct : forall bs, Forall (PropP SortP) bs -> forall s0 rvs dn s1,
+    conv_abranches cvf nm tg ct bs s0 = Some (rvs, dn, s1) -> SI s0 -> SI s1.
+  Proof.
+    induction bs as [|b r IH]; intros HQ s0 rvs dn s1 H; cbn [conv_abranches] in H.
+    - injection H as _ _ <-. exact (fun H => H).
+    - destruct (conv_avariant cvf nm tg ct b s0) as [[[[v vd] d1] sa]|] eqn:Hv; [|discriminate].
+      destruct (conv_abranches cvf nm tg ct r sa) as [[[vs2 d2] s2]|] eqn:Hr; [|discriminate].
+      injection H as _ _ <-. intro Hs. exact (IH (Forall_inv_tail HQ) _ _ _ _ Hr (conv_avariant_sorted _ _ _ _ _ _ _ _ _ (Forall_inv HQ) Hv Hs)).
+  Qed.
+
+  Lemma conv_props_skip_sorted tg base req : forall props, Forall (fun kv => SortP (snd kv)) props -> forall s0 ps s1,
+    conv_props_skip cls cvf tg base req props s0 = Some (ps, s1) -> SI s0 -> SI s1.
+  Proof.
+    induction props as [|[k s'] props IH]; intros HQ s0 ps s1 H; cbn [conv_props_skip] in H.
+    - injection H as _ <-. exact (fun H => H).
+    - destruct (ustr_eqb k tg); [exact (IH (Forall_inv_tail HQ) _ _ _ H)|].
+      destruct base as [b0|]; [|discriminate].
+      destruct (conv_prop cls cvf b0 req k s' s0) as [[p sa]|] eqn:Hp; [|discriminate].
+      destruct (conv_props_skip cls cvf tg (Some b0) req props sa) as [[l sb]|] eqn:Hr; [|discriminate].
+      injection H as _ <-. intro Hs. exact (IH (Forall_inv_tail HQ) _ _ _ Hr (conv_prop_sorted _ _ _ _ (Forall_inv HQ) _ _ _ Hp Hs)).
+  Qed.
+
+  Lemma conv_ivariant_sorted nm tg b s0 v vd s1 :
+    PropP SortP b -> conv_ivariant cls cvf nm tg b s0 = Some (v, vd, s1) -> SI s0 -> SI s1.
+  Proof.
+    intros HQ. assert (HF : Forall (fun kv => SortP (snd kv)) (sch_props b)).
+    { apply Forall_forall. intros [k sc] Hin. exact (HQ k sc Hin). }
+    destruct b as [bb|bty bfmt benum bcst bnv bsv bik bitems bai bmni bmxi buq bprops breq bap bmnp bmxp ballo banyo boneo bno bref bdflt btitle];
+      [discriminate|]. cbn [conv_ivariant]. cbn [sch_props] in HF.
+    assert (Hgen : match match assoc tg bprops with Some ts => cstr ts | None => None end with
+                   | Some v0 =>
+                       match conv_props_skip cls cvf tg (name_opt nm) breq bprops s0 with
+                       | Some (ps, sa) =>
+                           if Sanitize.unique (map p_name (sort_props ps)) then Some (v0, VStruct (sort_props ps), sa) else None
+                       | None => None
+                       end
+                   | None => None
+                   end = Some (v, vd, s1) -> SI s0 -> SI s1).
+    { destruct (match assoc tg bprops with Some ts => cstr ts | None => None end); [|discriminate].
+      destruct (conv_props_skip cls cvf tg (name_opt nm) breq bprops s0) as [[ps sa]|] eqn:Hp; [|discriminate].
+      destruct (Sanitize.unique _); [|discriminate]. intro H. injection H as _ _ <-.
+      exact (conv_props_skip_sorted _ _ _ _ HF _ _ _ Hp). }
+    destruct bprops as [|[k1 s1'] [|kv2 rest]]; try exact Hgen.
+    destruct (cstr s1'); [|discriminate]. intro H. injection H as _ _ <-. exact (fun H => H).
+  Qed.
+
+  Lemma conv_ibranches_sorted nm tg : forall bs, Forall (PropP SortP) bs -> forall s0 rvs s1,
+    conv_ibranches cls cvf nm tg bs s0 = Some (rvs, s1) -> SI s0 -> SI s1.
+  Proof.
+    induction bs as [|b r IH]; intros HQ s0 rvs s1 H; cbn [conv_ibranches] in H.
+    - injection H as _ <-. exact (fun H => H).
+    - destruct (conv_ivariant cls cvf nm tg b s0) as [[[v vd] sa]|] eqn:Hv; [|discriminate].
+      destruct (conv_ibranches cls cvf nm tg r sa) as [[vs2 s2]|] eqn:Hr; [|discriminate].
+      injection H as _ <-. intro Hs. exact (IH (Forall_inv_tail HQ) _ _ _ Hr (conv_ivariant_sorted _ _ _ _ _ _ _ (Forall_inv HQ) Hv Hs)).
   Qed.
 
   Lemma conv_kind_sorted items props req ap oneo k nm s0 te s1 :
@@ -231,11 +311,17 @@ Section Sorted.
   Proof.
     intros HPi HPp HPa HPo H Hs.
     destruct k as [| | | |mx mn pat|r|raws|deny| | |c|c|r| |tg]; cbn [conv_kind] in H.
-    15: { destruct tg; try discriminate. destruct (type_name cls nm); [|discriminate].
-          destruct oneo as [bs|]; [|discriminate].
-          destruct (conv_xbranches cvf nm bs s0) as [[[rvs deny] sa]|] eqn:Hb; [|discriminate].
-          unfold mk_tagged in H. destruct (Sanitize.variant_idents cls (map fst rvs)); try discriminate.
-          injection H as <- <-. split; [exact (conv_xbranches_sorted _ _ HPo _ _ _ _ Hb Hs)|exact I]. }
+    15: { destruct tg as [|tg|tg ct|]; try discriminate; (destruct (type_name cls nm); [|discriminate]);
+            (destruct oneo as [bs|]; [|discriminate]).
+          - destruct (conv_xbranches cvf nm bs s0) as [[[rvs deny] sa]|] eqn:Hb; [|discriminate].
+            unfold mk_tagged in H. destruct (Sanitize.variant_idents cls (map fst rvs)); try discriminate.
+            injection H as <- <-. split; [exact (conv_xbranches_sorted _ _ HPo _ _ _ _ Hb Hs)|exact I].
+          - destruct (conv_ibranches cls cvf nm tg bs s0) as [[rvs sa]|] eqn:Hb; [|discriminate].
+            unfold mk_tagged in H. destruct (Sanitize.variant_idents cls (map fst rvs)); try discriminate.
+            injection H as <- <-. split; [exact (conv_ibranches_sorted _ _ _ HPo _ _ _ Hb Hs)|exact I].
+          - destruct (conv_abranches cvf nm tg ct bs s0) as [[[rvs deny] sa]|] eqn:Hb; [|discriminate].
+            unfold mk_tagged in H. destruct (Sanitize.variant_idents cls (map fst rvs)); try discriminate.
+            injection H as <- <-. split; [exact (conv_abranches_sorted _ _ _ _ HPo _ _ _ _ Hb Hs)|exact I]. }
     - injection H as <- <-. split; [exact Hs|exact I].
     - injection H as <- <-. split; [exact Hs|exact I].
     - injection H as <- <-. split; [exact Hs|exact I].
@@ -457,8 +543,88 @@ Section Slots.
       destruct bprops as [|[v sc] [|]].
       + destruct (xsimple _); [|discriminate]. exact (Hrest _ _ _ (frame_refl s0) H).
       + destruct (conv_xvar cvf nm v sc s0) as [[[vd deny] sa]|] eqn:Hv; [|discriminate].
-        refine (Hrest _ _ _ _ H). exact (conv_xvar_frame _ _ _ _ _ _ _ (Forall_inv HQ v sc eq_refl) Hv).
+        refine (Hrest _ _ _ _ H). exact (conv_xvar_frame _ _ _ _ _ _ _ (Forall_inv HQ v sc (or_introl eq_refl)) Hv).
       + destruct (xsimple _); [|discriminate]. exact (Hrest _ _ _ (frame_refl s0) H).
+  Qed.
+
+
+  Lemma conv_avariant_frame nm tg ct b s0 v vd d s1 :
+    PropP FrameP b -> conv_avariant cvf nm tg ct b s0 = Some (v, vd, d, s1) -> frame s0 s1.
+  Proof.
+    intros HQ. destruct b as [bb|bty bfmt benum bcst bnv bsv bik bitems bai bmni bmxi buq bprops breq bap bmnp bmxp ballo banyo boneo bno bref bdflt btitle];
+      [discriminate|]. cbn [conv_avariant].
+    assert (Hpay : forall (vn : option ustring) sc, FrameP sc ->
+              match vn with
+              | Some v0 => match conv_xvar cvf nm (match nm with NRequired _ => ct | _ => v0 end) sc s0 with
+                           | Some (vd0, deny, sa) => Some (v0, vd0, deny, sa)
+                           | None => None
+                           end
+              | None => None
+              end = Some (v, vd, d, s1) -> frame s0 s1).
+    { intros [v0|] sc HQs H; [|discriminate].
+      destruct (conv_xvar cvf nm _ sc s0) as [[[vd0 deny] sa]|] eqn:Hv; [|discriminate]. injection H as _ _ _ <-.
+      exact (conv_xvar_frame _ _ _ _ _ _ _ HQs Hv). }
+    destruct bprops as [|[k1 s1'] [|[k2 s2'] [|]]]; try discriminate.
+    - destruct (cstr s1'); [|discriminate]. intro H. injection H as _ _ _ <-. apply frame_refl.
+    - destruct (ustr_eqb k1 tg).
+      + apply Hpay. apply (HQ k2 s2'). right. left. reflexivity.
+      + apply Hpay. apply (HQ k1 s1'). left. reflexivity.
+  Qed.
+
+  Lemma conv_abranches_frame nm tg ct : forall bs, Forall (PropP FrameP) bs -> forall s0 rvs dn s1,
+    conv_abranches cvf nm tg ct bs s0 = Some (rvs, dn, s1) -> frame s0 s1.
+  Proof.
+    induction bs as [|b r IH]; intros HQ s0 rvs dn s1 H; cbn [conv_abranches] in H.
+    - injection H as _ _ <-. apply frame_refl.
+    - destruct (conv_avariant cvf nm tg ct b s0) as [[[[v vd] d1] sa]|] eqn:Hv; [|discriminate].
+      destruct (conv_abranches cvf nm tg ct r sa) as [[[vs2 d2] s2]|] eqn:Hr; [|discriminate].
+      injection H as _ _ <-. eapply frame_trans; [exact (conv_avariant_frame _ _ _ _ _ _ _ _ _ (Forall_inv HQ) Hv)|exact (IH (Forall_inv_tail HQ) _ _ _ _ Hr)].
+  Qed.
+
+  Lemma conv_props_skip_frame tg base req : forall props, Forall (fun kv => FrameP (snd kv)) props -> forall s0 ps s1,
+    conv_props_skip cls cvf tg base req props s0 = Some (ps, s1) -> frame s0 s1.
+  Proof.
+    induction props as [|[k s'] props IH]; intros HQ s0 ps s1 H; cbn [conv_props_skip] in H.
+    - injection H as _ <-. apply frame_refl.
+    - destruct (ustr_eqb k tg); [exact (IH (Forall_inv_tail HQ) _ _ _ H)|].
+      destruct base as [b0|]; [|discriminate].
+      destruct (conv_prop cls cvf b0 req k s' s0) as [[p sa]|] eqn:Hp; [|discriminate].
+      destruct (conv_props_skip cls cvf tg (Some b0) req props sa) as [[l sb]|] eqn:Hr; [|discriminate].
+      injection H as _ <-. eapply frame_trans; [exact (conv_prop_frame _ _ _ _ (Forall_inv HQ) _ _ _ Hp)|exact (IH (Forall_inv_tail HQ) _ _ _ Hr)].
+  Qed.
+
+  Lemma conv_ivariant_frame nm tg b s0 v vd s1 :
+    PropP FrameP b -> conv_ivariant cls cvf nm tg b s0 = Some (v, vd, s1) -> frame s0 s1.
+  Proof.
+    intros HQ. assert (HF : Forall (fun kv => FrameP (snd kv)) (sch_props b)).
+    { apply Forall_forall. intros [k sc] Hin. exact (HQ k sc Hin). }
+    destruct b as [bb|bty bfmt benum bcst bnv bsv bik bitems bai bmni bmxi buq bprops breq bap bmnp bmxp ballo banyo boneo bno bref bdflt btitle];
+      [discriminate|]. cbn [conv_ivariant]. cbn [sch_props] in HF.
+    assert (Hgen : match match assoc tg bprops with Some ts => cstr ts | None => None end with
+                   | Some v0 =>
+                       match conv_props_skip cls cvf tg (name_opt nm) breq bprops s0 with
+                       | Some (ps, sa) =>
+                           if Sanitize.unique (map p_name (sort_props ps)) then Some (v0, VStruct (sort_props ps), sa) else None
+                       | None => None
+                       end
+                   | None => None
+                   end = Some (v, vd, s1) -> frame s0 s1).
+    { destruct (match assoc tg bprops with Some ts => cstr ts | None => None end); [|discriminate].
+      destruct (conv_props_skip cls cvf tg (name_opt nm) breq bprops s0) as [[ps sa]|] eqn:Hp; [|discriminate].
+      destruct (Sanitize.unique _); [|discriminate]. intro H. injection H as _ _ <-.
+      exact (conv_props_skip_frame _ _ _ _ HF _ _ _ Hp). }
+    destruct bprops as [|[k1 s1'] [|kv2 rest]]; try exact Hgen.
+    destruct (cstr s1'); [|discriminate]. intro H. injection H as _ _ <-. apply frame_refl.
+  Qed.
+
+  Lemma conv_ibranches_frame nm tg : forall bs, Forall (PropP FrameP) bs -> forall s0 rvs s1,
+    conv_ibranches cls cvf nm tg bs s0 = Some (rvs, s1) -> frame s0 s1.
+  Proof.
+    induction bs as [|b r IH]; intros HQ s0 rvs s1 H; cbn [conv_ibranches] in H.
+    - injection H as _ <-. apply frame_refl.
+    - destruct (conv_ivariant cls cvf nm tg b s0) as [[[v vd] sa]|] eqn:Hv; [|discriminate].
+      destruct (conv_ibranches cls cvf nm tg r sa) as [[vs2 s2]|] eqn:Hr; [|discriminate].
+      injection H as _ <-. eapply frame_trans; [exact (conv_ivariant_frame _ _ _ _ _ _ _ (Forall_inv HQ) Hv)|exact (IH (Forall_inv_tail HQ) _ _ _ Hr)].
   Qed.
 
   Lemma conv_kind_frame items props req ap oneo k nm s0 te s1 :
@@ -469,11 +635,17 @@ Section Slots.
     intros HPi HPp HPa HPo H.
     destruct k as [| | | |mx mn pat|r|raws|deny| | |c|c|r| |tg]; cbn [conv_kind] in H;
       try (injection H as _ <-; apply frame_refl).
-    10: { destruct tg; try discriminate. destruct (type_name cls nm); [|discriminate].
-          destruct oneo as [bs|]; [|discriminate].
-          destruct (conv_xbranches cvf nm bs s0) as [[[rvs deny] sa]|] eqn:Hb; [|discriminate].
-          destruct (mk_tagged cls u TagExternal rvs deny); [|discriminate]. injection H as _ <-.
-          exact (conv_xbranches_frame _ _ HPo _ _ _ _ Hb). }
+    10: { destruct tg as [|tg|tg ct|]; try discriminate; (destruct (type_name cls nm); [|discriminate]);
+            (destruct oneo as [bs|]; [|discriminate]).
+          - destruct (conv_xbranches cvf nm bs s0) as [[[rvs deny] sa]|] eqn:Hb; [|discriminate].
+            destruct (mk_tagged cls u TagExternal rvs deny); [|discriminate]. injection H as _ <-.
+            exact (conv_xbranches_frame _ _ HPo _ _ _ _ Hb).
+          - destruct (conv_ibranches cls cvf nm tg bs s0) as [[rvs sa]|] eqn:Hb; [|discriminate].
+            destruct (mk_tagged cls u (TagInternal tg) rvs _); [|discriminate]. injection H as _ <-.
+            exact (conv_ibranches_frame _ _ _ HPo _ _ _ Hb).
+          - destruct (conv_abranches cvf nm tg ct bs s0) as [[[rvs deny] sa]|] eqn:Hb; [|discriminate].
+            destruct (mk_tagged cls u (TagAdjacent tg ct) rvs deny); [|discriminate]. injection H as _ <-.
+            exact (conv_abranches_frame _ _ _ _ HPo _ _ _ _ Hb). }
     - destruct (assign DString _) as [sid sa] eqn:Ha.
       destruct (type_name cls nm); [|discriminate]. injection H as _ <-.
       eapply frame_trans; [|exact (assign_frame _ _ _ _ Ha)].
